@@ -90,7 +90,9 @@ static void check_single(Harness &H, const Grid<S> &g, const std::vector<mpq_cla
       std::optional<size_t> r;
       Outcome o = attempt([&] { r = s.relativeFromAbsolute(i); });
       bool in = m.count(i) > 0;
-      if (o.threw()) H.fail("relativeFromAbsolute", "threw for " + is);
+      // "not contained" may be reported as nullopt or by the library exception
+      if (o.threw() && (in || o.o != Out::BSPLINE_EXC)) H.fail("relativeFromAbsolute", "threw for " + is + ": " + o.str());
+      else if (o.threw()) {}
       else if (in != r.has_value()) H.fail("relativeFromAbsolute", "relativeFromAbsolute(" + is + ") " + (r ? "returned " + std::to_string(*r) : "returned nullopt") + ", contained=" + std::to_string(in));
       else if (in) {
         if (*r != i - w.s) H.fail("relativeFromAbsolute", "wrong value for " + is);
@@ -105,7 +107,8 @@ static void check_single(Harness &H, const Grid<S> &g, const std::vector<mpq_cla
       std::optional<size_t> r;
       Outcome o = attempt([&] { r = s.intervalIndexFromAbsolute(i); });
       bool in = m.count(i) > 0 && i != ~(size_t)0 && m.count(i + 1) > 0;
-      if (o.threw()) H.fail("intervalIndexFromAbsolute", "threw for " + is);
+      if (o.threw() && (in || o.o != Out::BSPLINE_EXC)) H.fail("intervalIndexFromAbsolute", "threw for " + is + ": " + o.str());
+      else if (o.threw()) {}
       else if (in != r.has_value()) H.fail("intervalIndexFromAbsolute", "intervalIndexFromAbsolute(" + is + ") " + (r ? "returned " + std::to_string(*r) : "returned nullopt") + ", interval contained=" + std::to_string(in));
       else if (in && *r != i - w.s) H.fail("intervalIndexFromAbsolute", "wrong value for " + is);
       H.cls(in ? "ivl:contained" : "ivl:notcontained");
